@@ -555,7 +555,7 @@ def _save_bs(basis_dir, Rmax, order, odd, bs, tri=False, verbose=False):
                                                     has_odd, has_inv)
     if verbose:
         print('Saving basis set to disk as', file_name)
-    np.save(os.path.join(basis_dir, file_name), out)
+    abel.transform._save_basis(os.path.join(basis_dir, file_name), out)
 
 
 def get_bs_cached(Rmax, order=2, odd=False, direction='inverse', reg=None,
